@@ -34,7 +34,7 @@ def m_adsb(ctx, case):
     rng = ctx.rng
     s8, tc, cat, df = case["cs"], case["tc"], case["cat"], case["df"]
     me = (tc << 51) | (cat << 48) | enc(s8)
-    hx = "%028X" % bits.es_frame(df, rng.randrange(8), rng.getrandbits(24), me)
+    hx = "%028X" % bits.es_frame(df, rng.randrange(8), rng.fill(24), me)
     if case.get("lower"):
         hx = hx.lower()
     exp = s8.replace(" ", "_")
@@ -72,7 +72,7 @@ def m_bds20(ctx, case):
     rng = ctx.rng
     s8, df = case["cs"], case["df"]
     mb = (0x20 << 48) | enc(s8)
-    hx = "%028X" % bits.commb_frame(df, rng.getrandbits(27), mb, rng.getrandbits(24))
+    hx = "%028X" % bits.commb_frame(df, rng.fill(27), mb, rng.fill(24))
     if case.get("lower"):
         hx = hx.lower()
     exp = s8.replace(" ", "_")
